@@ -1132,4 +1132,119 @@ theorem prune_none_loaded (loaded : Comp → Bool) (keys : List Comp) (g : Graph
 theorem prune_keyerror_witness :
     prune (fun _ => true) [1, 2] [(1, [2]), (2, [])] = none := by decide
 
+/-! ### 10. archive detection: which context a directory written by collection is taken for (round 10)
+
+`initialize_broker` loads meta_data only under a SerializedArchiveContext rooted at the archive's top; the decision
+is made from the paths of ALL files of the archive, hence from every persisted location. -/
+
+/-- a context none of whose marker occurrences is voted by any file does not answer -/
+theorem handles_none_of_no_vote (mk : Str) (files : List Str) (h : ∀ f ∈ files, markerRoot mk f = none) :
+    handles (some mk) files = none := by
+  have : markerRoots mk files = [] := by
+    unfold markerRoots
+    exact List.filterMap_eq_nil_iff.2 h
+  simp [handles, this]
+
+example : handles (some mkSos) [['/', 'a', '/', 's', 'o', 's', '_', 'c', 'o', 'm', 'm', 'a', 'n', 'd', 's', 'X', '/', 'f']] = none := by decide
+example : handles (some mkSos) [['/', 'a', '/', 's', 'o', 's', '_', 'c', 'o', 'm', 'm', 'a', 'n', 'd', 's', '/', 'f']] = some ['/', 'a'] := by decide
+
+/-- when some file votes `root` and every other vote is `root` or strictly longer, the context answers `root`
+    — in whatever order the files (the code's set of roots) are visited -/
+theorem handles_closest (mk : Str) (files : List Str) (root : Str)
+    (hv : ∃ f ∈ files, markerRoot mk f = some root)
+    (hall : ∀ f ∈ files, ∀ r, markerRoot mk f = some r → r = root ∨ root.length < r.length) :
+    handles (some mk) files = some root := by
+  have hmem : root ∈ markerRoots mk files := by
+    obtain ⟨f, hf, hr⟩ := hv
+    exact List.mem_filterMap.2 ⟨f, hf, hr⟩
+  have hall' : ∀ x ∈ markerRoots mk files, x = root ∨ root.length < x.length := by
+    intro x hx
+    obtain ⟨f, hf, hr⟩ := List.mem_filterMap.1 hx
+    exact hall f hf x hr
+  unfold handles
+  simp only
+  cases hm : markerRoots mk files with
+  | nil => rw [hm] at hmem; cases hmem
+  | cons r rest =>
+    rw [hm] at hmem hall'
+    simp only [closest_unique_min root rest r hmem hall']
+
+/-- a file NAMED insights_archive.txt collected somewhere below data/ does not move the root -/
+example : handles (some mkArchiveTxt)
+    [['/', 'a', '/', 'd', 'a', 't', 'a', '/', 'x', '/'] ++ mkArchiveTxt, ['/', 'a', '/'] ++ mkArchiveTxt] = some ['/', 'a'] := by decide
+
+/-- later registrations win: the context registered last that answers is the one identified -/
+theorem identify_last_wins (reg : List CtxDecl) (e : CtxDecl) (files : List Str) :
+    identifyReg (reg ++ [e]) files =
+      match handles e.marker files with
+      | some r => some (r, e.name)
+      | none => identifyReg reg files := by
+  unfold identifyReg
+  rw [List.reverse_append]
+  simp only [List.reverse_cons, List.reverse_nil, List.nil_append, List.cons_append, List.findSome?_cons]
+  cases handles e.marker files <;> simp
+
+example : identifyReg (stockReg ++ [⟨['m', 'i', 'n', 'e'], some ['d', 'a', 't', 'a']⟩]) [['/', 'a', '/', 'd', 'a', 't', 'a', '/', 'f']]
+    = some (['/', 'a'], ['m', 'i', 'n', 'e']) := by decide
+
+/-- a directory without files is no archive -/
+theorem detect_empty_invalid (reg : List CtxDecl) : createContext reg [] = .invalid := by
+  simp [createContext]
+
+example : createContext stockReg [] = .invalid := by decide
+
+/-- The full statement "every archive written by collection is recognised, whatever was persisted where" -/
+def DetectFull : Prop :=
+  ∀ (root : Str) (locs metas : List Str), archiveLoads stockReg root locs metas = true
+
+/-- what holds: the archive is taken for a SerializedArchiveContext rooted at its top if no path of it carries
+    the marker of a context registered LATER (sos_commands, JBOSS_HOME) as a path component at its first
+    occurrence, the touched marker file votes for the top, and every other file named like the marker lies deeper -/
+theorem detect_partial (root : Str) (locs metas : List Str)
+    (hlater : ∀ f ∈ archiveFiles root locs metas, markerRoot mkSos f = none ∧ markerRoot mkJdr f = none)
+    (htop : markerRoot mkArchiveTxt (root ++ sep :: mkArchiveTxt) = some root)
+    (hdeeper : ∀ f ∈ archiveFiles root locs metas, ∀ r, markerRoot mkArchiveTxt f = some r → r = root ∨ root.length < r.length) :
+    archiveLoads stockReg root locs metas = true := by
+  have hj := handles_none_of_no_vote mkJdr _ (fun f hf => (hlater f hf).2)
+  have hs := handles_none_of_no_vote mkSos _ (fun f hf => (hlater f hf).1)
+  have ha := handles_closest mkArchiveTxt (archiveFiles root locs metas) root
+    ⟨_, by simp [archiveFiles], htop⟩ hdeeper
+  have hne : archiveFiles root locs metas ≠ [] := by simp [archiveFiles]
+  have hn : handles none (archiveFiles root locs metas) = none := rfl
+  simp [archiveLoads, createContext, hne, identifyReg, stockReg, hj, hs, ha, hn]
+
+example : archiveLoads stockReg ['/', 'a'] [['v', '/', 's', 'o', 's', '_', 'c', 'o', 'm', 'm', 'a', 'n', 'd', 's', '.', 'd', '/', 'x'],
+    mkInsightsCommands ++ ['/', 'l', 's']] [['s', '.', 'j', 's', 'o', 'n']] = true := by decide
+
+/-- known finding marker-shadowing: a persisted location with a path component `sos_commands` (or `JBOSS_HOME`)
+    makes the whole archive a SosArchiveContext (JDRContext) rooted below data/, and nothing is loaded -/
+theorem detect_shadow_witness : ¬ DetectFull := by
+  intro h
+  have := h ['/', 'a'] [['v', 'a', 'r', '/', 's', 'o', 's', '_', 'c', 'o', 'm', 'm', 'a', 'n', 'd', 's', '/', 'x']] []
+  revert this
+  decide
+
+example : createContext stockReg (archiveFiles ['/', 'a'] [['v', 'a', 'r', '/', 's', 'o', 's', '_', 'c', 'o', 'm', 'm', 'a', 'n', 'd', 's', '/', 'x']] [])
+    = .ctx ['/', 'a', '/', 'd', 'a', 't', 'a', '/', 'v', 'a', 'r'] nmSos := by decide
+
+/-- a path that does not contain "/" ++ marker as a substring never votes for that marker's context -/
+theorem markerRoot_none_of_not_infix (mk f : Str) (h : ¬ markerOf mk <:+: f) : markerRoot mk f = none := by
+  unfold markerRoot
+  simp only
+  rw [(findSub_none_iff (markerOf mk) f 0).2 h]
+
+example : ¬ markerOf mkSos <:+: ['/', 'a', '/', 's', 'o', 's', '_', 'c', 'o', 'm', 'm', 'a', 'n', 'd', '/', 'x'] :=
+  (findSub_none_iff _ _ 0).1 (by decide)
+
+/-- the sufficient condition in plain terms: no path of the archive contains "/sos_commands" or "/JBOSS_HOME" as a substring -/
+theorem detect_no_later_substring (root : Str) (locs metas : List Str)
+    (hsub : ∀ f ∈ archiveFiles root locs metas, ¬ markerOf mkSos <:+: f ∧ ¬ markerOf mkJdr <:+: f)
+    (htop : markerRoot mkArchiveTxt (root ++ sep :: mkArchiveTxt) = some root)
+    (hdeeper : ∀ f ∈ archiveFiles root locs metas, ∀ r, markerRoot mkArchiveTxt f = some r → r = root ∨ root.length < r.length) :
+    archiveLoads stockReg root locs metas = true :=
+  detect_partial root locs metas
+    (fun f hf => ⟨markerRoot_none_of_not_infix _ _ (hsub f hf).1, markerRoot_none_of_not_infix _ _ (hsub f hf).2⟩) htop hdeeper
+
+example : markerRoot mkArchiveTxt (['/', 't', '/', 'a'] ++ sep :: mkArchiveTxt) = some ['/', 't', '/', 'a'] := by decide
+
 end IV.Serde
